@@ -14,6 +14,11 @@ answers with an error (`FaultOutcome`).
 * `fault_before_any`  : a fault at the first operation leaves the disk untouched; a fault in a read
   (no journal entry) never changes the disk.
 
+* `fault_recovers`    : hence, for a writer core after any history of calls and reopen steps, a fault at
+  any storage operation of any further append_batch / clear / read leaves stores on which `Hypercore::new`
+  succeeds and yields a core that represents the log before the failed call or the log after it
+  (`C02.crash_atomic` applied to the fault's disk) — the write path, on the model.
+
 Partial: that the Rust really stops issuing operations after the failing one and maps the error
 instead of panicking (`flush_infos`, `map_random_access_err`, the `?` after every call) is modelled
 glue; the run injects one error at every storage operation (writes, deletes, truncates, reads and
@@ -52,5 +57,34 @@ theorem no_fault_complete (d : Disk) (journal : List SOp) (k : Nat) (hk : journa
     (withFault d journal k).disk = d.applyAll journal ∧ (withFault d journal k).failed = false := by
   have : ¬ k < journal.length := by omega
   simp [withFault, this]
+
+section Model
+open HC.LogSpec HC.LiveRefine HC.TreeStore HC.Persist HC.C01
+
+/-- a fault at the `k`-th storage operation of a call, after any history: reopening recovers the log before
+    the call or the log after it -/
+theorem fault_recovers (C : Crypto) (hC : HashWF C) (hS : SignWF C) (hTw : TreeWF C) (pk sk : Bytes)
+    (hpk : pk.length = 32) (hsk : sk.length = 32) (steps : List HStep) (hok : AllOK {} steps) (op : Op)
+    (hv : Valid (runA' {} steps).1 op) (hl : Limits (runA' {} steps).1 op) (k : Nat) :
+    ∃ c j, Core.openCore C (some (pk, some sk)) {} = .ok (c, j) ∧
+      ∃ c' jo, Core.openCore C none (withFault (runC' C (c, ({} : Disk).applyAll j) steps).1.2
+            (journalC C (runC' C (c, ({} : Disk).applyAll j) steps).1 op) k).disk = .ok (c', jo)
+        ∧ (Rep C c' ((withFault (runC' C (c, ({} : Disk).applyAll j) steps).1.2
+              (journalC C (runC' C (c, ({} : Disk).applyAll j) steps).1 op) k).disk.applyAll jo) (runA' {} steps).1
+          ∨ Rep C c' ((withFault (runC' C (c, ({} : Disk).applyAll j) steps).1.2
+              (journalC C (runC' C (c, ({} : Disk).applyAll j) steps).1 op) k).disk.applyAll jo) ((runA' {} steps).1.step op).1) := by
+  obtain ⟨c, j, h1, c', jo, h2, h3⟩ := C02.crash_atomic C hC hS hTw pk sk hpk hsk steps hok op hv hl k
+  refine ⟨c, j, h1, c', jo, ?_⟩
+  have hd : (withFault (runC' C (c, ({} : Disk).applyAll j) steps).1.2
+      (journalC C (runC' C (c, ({} : Disk).applyAll j) steps).1 op) k).disk
+      = crashDisk C (runC' C (c, ({} : Disk).applyAll j) steps).1 op k := by
+    unfold withFault crashDisk
+    split
+    · rfl
+    · rw [List.take_of_length_le (by omega)]
+  rw [hd]
+  exact ⟨h2, h3⟩
+
+end Model
 
 end HC.C10
